@@ -22,12 +22,29 @@ def build(concepts, case):
     is built and queried through the whole public API first, and stays alive (``twin_prelude``).
     ``case['via']``: the context handed to the driver is not the one built from the table but one
     obtained from it by a persistence route (``via``) - its ``lattice`` is then the loaded lattice."""
-    ctx = concepts.Context(list(case['objects']), list(case['properties']), gen.bools_of(case))
+    cls = user_subclass(concepts) if case.get('subclass') else concepts.Context
+    ctx = cls(list(case['objects']), list(case['properties']), gen.bools_of(case))
+    if case.get('subclass'):
+        COL.count('contexts_of_a_user_subclass')
     if case.get('twin_rows') is not None:
         twin_prelude(concepts, case, ctx)
     if case.get('via'):
         ctx = via(concepts, ctx, case)
     return ctx
+
+
+SubContext = None        # module attribute so that pickle finds the class by name (same process only)
+
+
+def user_subclass(concepts):
+    """``class SubContext(concepts.Context)`` that overrides nothing but ``__repr__`` - what a user who
+    wants a few helper methods writes.  Every property holds for its instances as it does for Context."""
+    global SubContext
+    if SubContext is None or concepts.Context not in SubContext.__mro__:
+        SubContext = type('SubContext', (concepts.Context,),
+                          {'__module__': __name__, '__doc__': 'a plain user subclass',
+                           'helper': lambda self: len(self.objects)})
+    return SubContext
 
 
 TWINS = collections.deque(maxlen=8)
@@ -122,7 +139,7 @@ def via(concepts, ctx, case):
     import random
     how = case['via']
     rng = random.Random(repr((how, gen.table_key(case))))
-    C = concepts.Context
+    C = type(ctx)           # classmethod constructors are called on the class of the source (a user subclass stays one)
     try:
         from .c06 import permuted_dict, structured_raw_dict
         lat = ctx.lattice
@@ -582,17 +599,44 @@ def recording(gen_obj, judge, where):
         items = []
         complete = False
         exc = None
+        thrown_in = None
+        it = iter(gen_obj)
         try:
-            for x in gen_obj:
+            while True:
+                try:
+                    x = next(it)
+                except StopIteration:
+                    complete = True
+                    break
                 items.append(x)
-                yield x
-            complete = True
+                try:
+                    yield x
+                except (GeneratorExit, core.CaseTimeout):
+                    raise
+                except BaseException as thrown:
+                    # thrown in by the consumer (generator.throw): hand it on to the real generator; the
+                    # same exception coming back out is the consumer's own, not a failure of the library
+                    thrown_in = thrown
+                    COL.counters['exceptions_thrown_into_generators'] += 1
+                    fwd = getattr(it, 'throw', None)
+                    if fwd is not None:
+                        try:
+                            fwd(thrown)
+                        except BaseException as back:
+                            if back is not thrown:
+                                thrown_in = None
+                            raise
+                    raise thrown
         except GeneratorExit:
+            close = getattr(it, 'close', None)
+            if close is not None:
+                close()
             raise
         except core.CaseTimeout:
             raise
         except BaseException as e:
-            exc = e
+            if e is not thrown_in:
+                exc = e
             raise
         finally:
             COL.depth += 1
@@ -704,6 +748,41 @@ def argform(labels, rng, iterable_ok=True):
     return iter(labels + labels[-1:])
 
 
+class _Thrown(Exception):
+    """What a consumer throws into a generator it no longer wants."""
+
+
+def abuse_generators(concepts, ctx, lat, members, rng):
+    """Generators are closed early or have an exception thrown in (a ``with``/``try`` block unwinding in
+    the consumer); the same traversal is then started again and consumed.  Never raises."""
+    alg = concepts.algorithms
+    c = rng.choice(members)
+    ms = [rng.choice(members) for _ in range(3)]
+    makers = [c.upset, c.downset, lambda: lat.upset_union(ms), lambda: lat.downset_union(ms),
+              lambda: alg.fast_generate_from(ctx), lambda: alg.fcbo_dual(ctx), lambda: alg.iterconcepts(ctx),
+              lambda: iter(lat)]
+    if len(c.intent) <= 9:
+        makers.append(c.attributes)
+    for make in rng.sample(makers, 3):
+        try:
+            it = make()
+            for _ in range(rng.randint(0, 2)):
+                next(it, None)
+            if rng.random() < .5 and hasattr(it, 'throw'):
+                try:
+                    it.throw(_Thrown('consumer gave up'))
+                except (_Thrown, StopIteration):
+                    pass
+            elif hasattr(it, 'close'):
+                it.close()
+            list(make())
+            COL.counters['generators_closed_or_thrown_into_then_restarted'] += 1
+        except (core.CaseTimeout, core.CaseTooLarge):
+            raise
+        except Exception:
+            COL.counters['interference_calls_raised'] += 1
+
+
 KEEP = collections.deque(maxlen=6)     # objects made by interference steps stay alive for a while
 
 
@@ -800,6 +879,8 @@ def interference(concepts, ctx, lat, rng, steps=20):
             elif k == 23:
                 concepts.algorithms.get_concepts(ctx)
                 next(concepts.algorithms.fcbo_dual(ctx), None)
+                if rng.random() < .5:
+                    abuse_generators(concepts, ctx, lat, members, rng)
         except core.CaseTimeout:
             raise
         except core.CaseTooLarge:
